@@ -378,10 +378,14 @@ func newGSIBlock(s Subtitles) (g *gsiBlock) {
 			g.creationDate = *s.Metadata.STLCreationDate
 		}
 		g.countryOfOrigin = s.Metadata.STLCountryOfOrigin
-		g.displayStandardCode = s.Metadata.STLDisplayStandardCode
+		if s.Metadata.STLDisplayStandardCode != "" {
+			g.displayStandardCode = s.Metadata.STLDisplayStandardCode
+		}
 		g.editorContactDetails = s.Metadata.STLEditorContactDetails
 		g.editorName = s.Metadata.STLEditorName
-		g.framerate = s.Metadata.Framerate
+		if _, ok := stlFramerateMapping.GetInverse(s.Metadata.Framerate); ok {
+			g.framerate = s.Metadata.Framerate
+		}
 		if v, ok := stlLanguageMapping.GetInverse(s.Metadata.Language); ok {
 			g.languageCode = v.(string)
 		}
@@ -437,9 +441,12 @@ func parseGSIBlock(b []byte) (g *gsiBlock, err error) {
 	}
 
 	// Framerate
-	if v, ok := stlFramerateMapping.Get(string(b[3:11])); ok {
-		g.framerate = v.(int)
+	v, ok := stlFramerateMapping.Get(string(b[3:11]))
+	if !ok {
+		err = fmt.Errorf("astisub: unknown disk format code %q", string(b[3:11]))
+		return
 	}
+	g.framerate = v.(int)
 
 	// Creation date
 	if v := strings.TrimSpace(string(b[224:230])); len(v) > 0 {
